@@ -26,6 +26,9 @@ def main():
         with open(a.replay) as f:
             payload = json.load(f)
         sys.exit(mod.replay(payload['violation']))
+    if a.tier == 'thorough':
+        # every exploration of the thorough tier gets a wall-clock cap (35 min); what is left is reported as unexplored
+        os.environ.setdefault('VERIF_DEADLINE_S', '2100')
     only = a.only.split(',') if a.only else None
     sys.exit(mod.main(a.tier, seed, only))
 
